@@ -114,15 +114,16 @@ def ser_dtor(d):
                             "None" if d.name is None else us(d.name), ser_dtor(d.func))
 
 
-def ser_decl(d, sexp):
+def ser_decl(d, sexp, attrs_fn=None):
     attrs = [(k, v) for k, v in d.attrs.items() if not (k in ("_constructor", "_destructor", "_name") and v is None)]
+    atext = ",".join(us(k) + "=" + ser_av(v) for k, v in attrs) if attrs_fn is None else attrs_fn(d)
     return "D(%s;%s;%s%s;%s;%s;%s;<%s>;<%s>;%s;<%s>;%s)" % (
         usl(d.specifier), usl(d.storage), b01(d.const), b01(d.volatile),
         us(d.typemap.name if d.typemap is not None else "?none"), ser_dtor(d.declarator),
-        "None" if d.params is None else "<" + ",".join(ser_decl(p, sexp) for p in d.params) + ">",
+        "None" if d.params is None else "<" + ",".join(ser_decl(p, sexp, attrs_fn) for p in d.params) + ">",
         ",".join(sexp(e) for e in d.array),
-        ",".join(us(k) + "=" + ser_av(v) for k, v in attrs), ser_av(d.init),
-        ",".join(ser_decl(t, sexp) for t in d.template_arguments), b01(d.func_const))
+        atext, ser_av(d.init),
+        ",".join(ser_decl(t, sexp, attrs_fn) for t in d.template_arguments), b01(d.func_const))
 
 
 def ser_stmt(n, sexp):
